@@ -16,6 +16,19 @@ TableSlice(rows, s) ==
   LET sel == ArraySelection(s, Len(rows)) IN
     [labels |-> SetToSortSeq(sel, <), rows |-> [k \in 1..Cardinality(sel) |-> rows[SetToSortSeq(sel, <)[k] + 1]]]
 ProjectCols(rows, cols) == [k \in DOMAIN rows |-> [c \in DOMAIN cols |-> rows[k][cols[c]]]]
+\* pixels(join=True) with a column subset (1 = bin1_id, 2 = bin2_id, 3.. = value columns): every ID column that was asked for
+\* is replaced by chromosome / start / end of its bin - side 1 first, then side 2 - followed by the value columns in the
+\* order asked for
+RangeOf(cols) == {cols[c] : c \in DOMAIN cols}
+JoinedCols(cols, names) ==
+  (IF 1 \in RangeOf(cols) THEN <<"chrom1", "start1", "end1">> ELSE <<>>) \o
+  (IF 2 \in RangeOf(cols) THEN <<"chrom2", "start2", "end2">> ELSE <<>>) \o
+  [c \in DOMAIN SelectSeq(cols, LAMBDA i : i > 2) |-> names[SelectSeq(cols, LAMBDA i : i > 2)[c]]]
+JoinedRow(r, cols, t) ==
+  (IF 1 \in RangeOf(cols) THEN t[r[1] + 1] ELSE <<>>) \o
+  (IF 2 \in RangeOf(cols) THEN t[r[2] + 1] ELSE <<>>) \o
+  [c \in DOMAIN SelectSeq(cols, LAMBDA i : i > 2) |-> r[SelectSeq(cols, LAMBDA i : i > 2)[c]]]
+JoinedProject(rows, cols, t) == [k \in DOMAIN rows |-> JoinedRow(rows[k], cols, t)]
 
 \* bins: attributes per bin (sequence over the FULL table); part = <<a, b>>: the rows a..b-1 are available
 \* pixels: sequence of <<label, bin1, bin2, v...>> in any order
